@@ -416,9 +416,11 @@ Definition plan_next_connection_event (c : cfg) (s : lstate_t) (evts : N) : opti
 (* ------------------------------------------------------------------------------------------ advertising (minimal) *)
 Definition next_adv_channel (ch : N) : N := if ch =? 39 then 37 else ch + 1.
 
-(* handle_start_advertising(): the channel is NOT reset to 37 *)
+(* handle_start_advertising(): every (re)start of advertising begins a new advertising event on the first channel
+   (first_channel(); since the repair of C24's restart finding) *)
 Definition handle_start_advertising (s : lstate_t) : lstate_t * list item :=
-  (s, [IAa advertising_access_address advertising_crc_init; IAdv (adv_ch s)]).
+  let ch := GenLL.first_advertising_channel in
+  (set_adv_ch s ch, [IAa advertising_access_address advertising_crc_init; IAdv ch]).
 
 (* handle_adv_timeout() *)
 Definition handle_adv_timeout (s : lstate_t) : lstate_t * list item :=
